@@ -745,8 +745,9 @@ impl ExactSizeIterator for BitVectorIntoIter {
 impl Iterator for BitVectorIntoIter {
     type Item = bool;
     fn next(&mut self) -> Option<Self::Item> {
+        let bit = self.bv.get(self.i)?;
         self.i += 1;
-        self.bv.get(self.i - 1)
+        Some(bit)
     }
 }
 
